@@ -425,6 +425,9 @@ class C12(Property):
         ("antismash/common/secmet/locations.py", "location_bridges_origin"),
         ("antismash/common/secmet/features/feature.py", "Feature.start"),
         ("antismash/main.py", "add_antismash_comments"),
+        ("antismash/common/secmet/record.py", "Record.to_biopython"),
+        ("antismash/common/secmet/features/candidate_cluster/structures.py", "CandidateCluster.from_biopython"),
+        ("antismash/common/secmet/features/region/structures.py", "Region.from_biopython"),
     ]
     RULE = ("records (linear/circular, 40..3000 bases) with 0-6 protoclusters (cores and neighbourhoods, also over the "
             "origin, also with identical coordinates), 0-3 subregions, genes (single/multi-exon/origin-spanning, both "
@@ -438,7 +441,8 @@ class C12(Property):
     TRUSTED = ["Biopython SeqRecord slicing/addition, SeqFeature._shift, the GenBank writer and parser (exact positions, strands +1/-1)",
                "Record.to_biopython (C10) supplies the Biopython-level features the model starts from; Record.from_genbank (C10) "
                "is executed, not modelled, for the 're-loads with the same content' observation",
-               "leader/tail locations of origin-spanning precursor peptides are wrong before they reach this code (D8, C09) and are not generated",
+               "leader/tail locations of origin-spanning precursor peptides are not generated",
+               "main.add_antismash_comments is executed (real function, options stub with version/start/end) to put the antiSMASH-Data comment on the record; the Run date it writes is passed to the model as data",
                "fuzzy positions, strand 0/None features and mixed-strand compounds are outside the modelled domain"]
 
     # ------------------------------------------------------------------ generators
